@@ -886,6 +886,11 @@ class QvmCpu:
         )
         self.cur_frame = frame
 
+        # the routine's return address will sit at this stack index;
+        # whatever the routine leaves above it when it returns (return
+        # addresses of GOSUBs that are still active) is discarded then
+        frame.stack_base = len(self.stack) - params_size
+
         # copy parameters
         for i in range(params_size):
             # popping in reverse order
@@ -1201,6 +1206,9 @@ class QvmCpu:
         if self.error_handler_active:
             self.trap(TrapCode.NO_RESUME)
 
+        # a routine that ends inside one of its own GOSUBs drops them
+        del self.stack[self.cur_frame.stack_base + 1:]
+
         self.cur_frame.destroy()
         self.cur_frame = self.cur_frame.prev_frame
         ret_addr = self.pop(CellType.LONG)
@@ -1210,12 +1218,16 @@ class QvmCpu:
         if self.error_handler_active:
             self.trap(TrapCode.NO_RESUME)
 
-        self.cur_frame.destroy()
-        self.cur_frame = self.cur_frame.prev_frame
+        frame = self.cur_frame
+        frame.destroy()
+        self.cur_frame = frame.prev_frame
 
         retval = self.pop()
         if retval.type == CellType.REFERENCE:
             retval = retval.value.derefed()
+
+        # a routine that ends inside one of its own GOSUBs drops them
+        del self.stack[frame.stack_base + 1:]
 
         ret_addr = self.pop(CellType.LONG)
         self.pc = ret_addr
